@@ -198,7 +198,7 @@ class PropCheck:
         for c in cases:
             il = impl.get(c.cid, [])
             ml = model.get(c.cid, [])
-            d = vf.compare_case(c, il, ml, self.case_tol(c), self.strict_err_ops)
+            d = [] if c.meta.get('impl_only') else vf.compare_case(c, il, ml, self.case_tol(c), self.strict_err_ops)
             p = self.predicate(c, il)
             if d:
                 disagreements.append((c, d))
@@ -261,6 +261,7 @@ class PropCheck:
             'disagreements': len(disagreements), 'predicate_failures': len(pred_fail),
             'known_findings_matched': sorted(reported_known),
             'ops_executed': sum(len(c.ops) for c in cases),
+            'cases_compared_with_model': sum(1 for c in cases if not c.meta.get('impl_only')),
         }
         cov.update(self.stats)
         cov.update(self.extra_coverage())
